@@ -63,6 +63,7 @@ type PriorSpec struct { // state left in the out dir before the run (for resume 
 	ForeignID    string `json:"foreign_id"`    // ... another file id
 	FlipBit      int    `json:"flip_bit"`      // flip this bit of the sidecar file (0 = none, n = bit n-1)
 	TruncSidecar int    `json:"trunc_sidecar"` // truncate the sidecar file to n-1 bytes (0 = none)
+	TmpChunks    []int  `json:"tmp_chunks"`    // leave a complete temp sidecar (<path>.tmp, as a kill between temp write and rename does) marking these chunks
 }
 
 type Case struct {
@@ -96,6 +97,7 @@ type Case struct {
 	FlushFirst bool   `json:"flush_first"`  // call FlushAllFlushers() at that hit before dying (the flusher fires exactly there)
 	FlushAtAll string `json:"flush_at_all"` // call FlushAllFlushers() at EVERY hit of this point (flusher interleaving)
 	CountHits  bool   `json:"count_hits"`   // report how often each point was hit
+	Observe    bool   `json:"observe"`      // flush + load the receiver's sidecars continuously and compare every claimed chunk with the source
 	DelayPoint string `json:"delay_point"`  // sleep DelayMs at every hit of this point (optionally only when its 2nd arg == DelayArg)
 	DelayMs    int    `json:"delay_ms"`
 	DelayArg   *uint64 `json:"delay_arg,omitempty"`
@@ -119,6 +121,8 @@ type Result struct {
 	Note      string   `json:"note,omitempty"`
 	OutDir    string   `json:"out_dir,omitempty"`
 	Hits      map[string]int `json:"hits,omitempty"`
+	Unsound      []string `json:"unsound,omitempty"`
+	Observations int      `json:"observations,omitempty"`
 }
 
 func splitmix(s *uint64) uint64 {
@@ -591,6 +595,18 @@ func runCase(c Case) (res Result) {
 			}
 			os.WriteFile(scPath, raw, 0o644)
 		}
+		if len(pr.TmpChunks) > 0 {
+			// what a kill between the temp write and the rename of a later flush leaves next to the sidecar: a complete temp file
+			// (written through the real Sidecar code at another path, then moved to <path>.tmp)
+			tpath := scPath + ".stage"
+			if tsc, terr := transfer.CreateSidecar(tpath, item.ID, item.Size, chunk); terr == nil {
+				for _, ci := range pr.TmpChunks {
+					tsc.MarkComplete(uint32(ci))
+				}
+				tsc.Flush()
+				os.Rename(tpath, scPath+".tmp")
+			}
+		}
 		if !pr.NoData {
 			if pr.Short > 0 && pr.Short < int64(len(buf)) {
 				buf = buf[:pr.Short]
@@ -681,6 +697,10 @@ func runCase(c Case) (res Result) {
 	type ret struct{ err error }
 	sch := make(chan ret, 1)
 	rch := make(chan ret, 1)
+	var obs *observer
+	if c.Observe {
+		obs = startObserver(m, cmpSrc, outBase, outTree)
+	}
 	t0 := time.Now()
 	go func() {
 		err := transfer.SendManifestMultiStream(sctx, sconn, sendRoot, m, sopts)
@@ -733,6 +753,9 @@ func runCase(c Case) (res Result) {
 	}
 done:
 	res.ElapsedMs = time.Since(t0).Milliseconds()
+	if obs != nil {
+		res.Unsound, res.Observations = obs.finish()
+	}
 	a := snapshot(cmpSrc, false)
 	b := snapshot(outTree, true)
 	res.Diff = diffTrees(a, b)
